@@ -170,6 +170,18 @@ impl Monitor for C16 {
                     if a.is_input {
                         k.deposit(&mint_in, &m_in, c_in, Some(a.amount), a.amount, "input", &mut out, cov);
                         k.withdrawal(&mint_out, &m_out, c_out, a.threshold, "output", &mut out, cov);
+                        if m_out.withheld > 0 && m_out.arrived >= 0 && v.ix.data.len() >= 24 && out.is_empty() && ev.salt % 2 == 0 {
+                            let tight = (m_out.arrived as u64).saturating_add(1);
+                            let mut ix2 = v.ix.clone();
+                            ix2.data[16..24].copy_from_slice(&tight.to_le_bytes());
+                            let mut f = v.pre.clone();
+                            let r2 = crate::rt::exec_tx_simple(&mut f, &crate::rt::Tx { ixs: vec![ix2] });
+                            cov.probe("swap_tight_minimum_forks");
+                            let got = amt(&f, &user_out) - amt(v.pre, &user_out);
+                            if r2.ok && got < tight as i128 {
+                                out.push(viol("received_below_stated_minimum", ev.idx, format!("swap_v2 exact-in with minimum output {} succeeds but the trader receives {} (transfer fee {})", tight, got, m_out.withheld)));
+                            }
+                        }
                     } else {
                         k.deposit(&mint_in, &m_in, c_in, None, a.threshold, "input", &mut out, cov);
                         k.withdrawal(&mint_out, &m_out, c_out, 0, "output", &mut out, cov);
@@ -369,6 +381,20 @@ impl Monitor for C16 {
                         }
                     }
                     k.withdrawal(&mint_out, &m_out, sum_out(two), if a.is_input { a.threshold } else { 0 }, "output", &mut out, cov);
+                    // on a copy: the same exact-in route with a minimum one above what just arrived - whatever the program
+                    // then does, the trader must not end up with less than that minimum
+                    if a.is_input && m_out.withheld > 0 && m_out.arrived >= 0 && v.ix.data.len() >= 24 && out.is_empty() {
+                        let tight = (m_out.arrived as u64).saturating_add(1);
+                        let mut ix2 = v.ix.clone();
+                        ix2.data[16..24].copy_from_slice(&tight.to_le_bytes());
+                        let mut f = v.pre.clone();
+                        let r2 = crate::rt::exec_tx_simple(&mut f, &crate::rt::Tx { ixs: vec![ix2] });
+                        cov.probe("two_hop_tight_minimum_forks");
+                        let got = amt(&f, &c.a("token_owner_account_output")) - amt(v.pre, &c.a("token_owner_account_output"));
+                        if r2.ok && got < tight as i128 {
+                            out.push(viol("received_below_stated_minimum", ev.idx, format!("two_hop_swap_v2 exact-in with minimum output {} succeeds but the trader receives {} (the vault sent {}, transfer fee {})", tight, got, m_out.sent, m_out.withheld)));
+                        }
+                    }
                 }
                 _ => {}
             }
